@@ -1,4 +1,5 @@
 """Crash-isolating shard runner + verdict/evidence logic shared by all checks."""
+import fnmatch
 import json
 import os
 import re
@@ -364,7 +365,7 @@ def run_check(prop, tier, seed, repo, stages, level, rule, assumptions,
         k = v["key"]
         hit = None
         for (pid, kk, what) in known:
-            if pid == prop and (kk == k or (kk.endswith("*") and k.startswith(kk[:-1]))):
+            if pid == prop and (kk == k or ("*" in kk and fnmatch.fnmatchcase(k, kk.replace("[", "[[]"))):
                 hit = what
                 break
         if hit is not None:
